@@ -611,7 +611,7 @@ impl Check for FileSinkCheck {
         30
     }
     fn required(&self, _tier: Tier) -> Vec<&'static str> {
-        vec!["fault:crash_at_write", "fault:torn_write", "fault:short_write", "fault:eintr_write", "crash_after_ack", "mode_cells"]
+        vec!["fault:crash_at_write", "fault:kill_between_calls", "fault:torn_write", "fault:short_write", "fault:eintr_write", "crash_after_ack", "mode_cells"]
     }
     fn run(&self, src: &mut Src, ctx: &mut RunCtx) -> RunResult {
         let sel = src.draw(31);
@@ -734,8 +734,18 @@ pub fn crash_child(args: &[String]) -> i32 {
         plan
     };
     // Acknowledged = consumed when work() returned (written while disarmed).
+    let works = std::cell::Cell::new(0usize);
     let ack = |n: usize| {
         let _ = std::fs::write(&ack_path, n.to_string());
+        let k = works.get();
+        works.set(k + 1);
+        if p.kill_after_work == Some(k) {
+            // SAFETY: plain kill of ourselves.
+            unsafe {
+                libc::kill(libc::getpid(), libc::SIGKILL);
+                libc::_exit(137);
+            }
+        }
     };
     solo.with(|| {
         rustradio::verif::set_stream_size(p.stream);
@@ -812,6 +822,9 @@ struct CrashParams {
     eintr: Option<usize>,
     write_chunks: Vec<usize>,
     pre: bool,
+    /// Die right after the k-th work() call returned (and was acknowledged):
+    /// a kill between two calls, when nothing is inside a system call.
+    kill_after_work: Option<usize>,
 }
 
 impl CrashParams {
@@ -847,7 +860,8 @@ impl CrashParams {
         let eintr = if crash.is_none() && src.chance(1, 2) { Some(src.below(4)) } else { None };
         let write_chunks = if src.chance(1, 3) { gen_chunks(src, 1) } else { vec![] };
         let pre = mode != 0;
-        Self { mode, nocopy, stream, n, seed, crash, eintr, write_chunks, pre }
+        let kill_after_work = if crash.is_none() && src.chance(2, 3) { Some(src.below(6)) } else { None };
+        Self { mode, nocopy, stream, n, seed, crash, eintr, write_chunks, pre, kill_after_work }
     }
     fn data(&self) -> Vec<u8> {
         let mut r = crate::src::Rng::new(self.seed);
@@ -885,7 +899,7 @@ fn crash_run(src: &mut Src, ctx: &mut RunCtx) -> RunResult {
     if p.pre {
         std::fs::write(&path, &pre).map_err(|e| Violation::new("HARNESS-PANIC write", e.to_string()))?;
     }
-    let desc = format!("{} mode {} n {} crash {:?} eintr {:?} write_chunks {:?}", if p.nocopy { "NoCopyFileSink" } else { "FileSink" }, ["Create", "Overwrite", "Append"][p.mode], p.n, p.crash, p.eintr, p.write_chunks);
+    let desc = format!("{} mode {} n {} crash {:?} kill_after_work {:?} eintr {:?} write_chunks {:?}", if p.nocopy { "NoCopyFileSink" } else { "FileSink" }, ["Create", "Overwrite", "Append"][p.mode], p.n, p.crash, p.kill_after_work, p.eintr, p.write_chunks);
     ctx.ev(|| desc.clone());
     if ctx.sample.is_none() {
         ctx.sample = Some(json!({"crash_run": desc}));
@@ -912,7 +926,10 @@ fn crash_run(src: &mut Src, ctx: &mut RunCtx) -> RunResult {
     let stream = p.expected_stream();
     let base: Vec<u8> = if p.mode == 2 { pre.clone() } else { vec![] };
     let full: Vec<u8> = [base.clone(), stream.clone()].concat();
-    if killed {
+    if killed && p.kill_after_work.is_some() && p.crash.is_none() {
+        ctx.count("fault:kill_between_calls");
+    }
+    if killed && p.crash.is_some() {
         ctx.count("fault:crash_at_write");
         if let Some((_, t)) = p.crash {
             if t != 0 && t != usize::MAX {
